@@ -347,8 +347,21 @@ sx_parse_list(const char *s, const size_t n, const size_t i)
         rv.status = SXS_UNEXPECTED_END;
         return rv;
     }
-    struct sx_parse_result carres = sx_parse_(s, n, i);
-    if (result_is_empty_listp(&carres) || result_is_error(&carres)) {
+    /* Read the next token here, so that the parenthesis that closes this list
+     * can be told from an empty list that is one of its elements. */
+    struct sx_parse_result carres = sx_parse_token(s, n, i);
+    if (carres.status == SXS_SUCCESS && carres.node == NULL) {
+        /* Nothing but whitespace up to the end of the input. */
+        carres.status = SXS_UNEXPECTED_END;
+        return carres;
+    }
+    if (result_is_empty_listp(&carres)) {
+        return carres;
+    }
+    if (carres.status == SXS_FOUND_LIST) {
+        carres = sx_parse_list(s, n, carres.position);
+    }
+    if (result_is_error(&carres)) {
         return carres;
     }
 
